@@ -370,6 +370,18 @@ def rule_fileref(ctx, py):
                           "that file's directory" % pyfe.src(opened)[:40], "the dictionary parsed from the file `%s` is read with "
                           "base_path `%s`, not the directory of that file: the files it names (environment maps, arrays, nested "
                           "JSON) are looked up in another directory" % (pyfe.src(opened)[:50], cands[0] if cands else "(none)"))
+    # the resolution of a reference is a function of the reference and of the referring file's directory alone: the path helpers
+    # never look at what exists on disk or at the working directory (a file of the same name next to the process would win)
+    FS = ("exists", "is_file", "is_dir", "isfile", "isdir", "getcwd", "cwd", "resolve", "expanduser", "glob", "listdir", "stat",
+          "samefile", "realpath", "lexists")
+    for q in ("filepath.get_path_with_base",):
+        g_ = py.fn(q)
+        bad = [c for c in pyfe.calls_in(g_) if pyfe.call_name(c).split(".")[-1] in FS]
+        n += 1
+        ctx.check(not bad, R, bad[0] if bad else g_, q, "no look at the file system in %s" % q.split(".")[-1],
+                  "relative references resolve against base_path, always", "`%s` makes the resolution depend on what exists in the "
+                  "working directory: a relative reference that also exists there is read from there instead of from the referring "
+                  "file's directory" % (pyfe.src(bad[0])[:40] if bad else ""))
     # the data file name written into a trajectory file is relative to that file
     f = py.fn("rdoutput.save_rdtrajectory")
     vals = []
